@@ -107,7 +107,13 @@ func check(c *pbt.Case, r *pbt.R) {
 			r.Failf("a layer that captured a stack has no reportable stack trace (or vice versa)", "model %d layers with a stack, library %d\nspec %s", want, len(withStack), c.Spec)
 		}
 	}
-	dom := string(errors.GetDomain(e))
+	// The error's domain, from the case description (the outermost
+	// domain annotation of the single-cause chain; domains survive
+	// transfer, C11), not from the library's own GetDomain.
+	dom := gen.ModelDomain(gen.Chain(c.Spec))
+	if got := string(errors.GetDomain(e)); got != dom {
+		r.Failf("GetDomain is not the outermost domain annotation of the chain", "got %q want %q\nspec %s", got, dom, c.Spec)
+	}
 	if len(withStack) == 0 {
 		if len(ev.Exception) != 1 || ev.Exception[0].Stacktrace != nil {
 			r.Failf("a report for an error without stack does not have exactly one synthetic exception", "%d exceptions\nspec %s", len(ev.Exception), c.Spec)
